@@ -51,7 +51,7 @@ func H_errpos(f, nl, L int) {
 			faultLine = line
 			src += c19Faults[f].text + brk
 		} else {
-			src += "line{$x}" + brk
+			src += []string{"line{$x}", "\u00e9\u20ac{$x}\u00e9", "\U0001F600{$x} x"}[i%3] + brk
 		}
 		line += linesPer(nl)
 	}
